@@ -45,7 +45,7 @@
 (***************************************************************************)
 EXTENDS CbRule, GoSlice
 
-CONSTANTS Shape,       \* "par2" | "par3" | "seq" | "nest" | "nestdup" | "sbr" | "nsbr" | "tools"
+CONSTANTS Shape,       \* "par2" | "par3" | "seq" | "nest" | "nestdup" | "sbr" | "nsbr" | "tools" | "det"
           MaxGlobal,   \* 0..MaxGlobal global handlers
           MaxUndes,    \* total number of undesignated handlers
           MaxOpts,     \* ... split over at most MaxOpts WithCallbacks options of 1 or 2 handlers
@@ -54,12 +54,14 @@ CONSTANTS Shape,       \* "par2" | "par3" | "seq" | "nest" | "nestdup" | "sbr" |
           AllowFail,   \* admit one failing leaf
           CopyFix, Gen,
           LateFlag,    \* seeded variant of runner.run: `haveOnStart = true` only after the fresh-start block (see EndR)
+          KeepScope,   \* seeded variant of InitCallbacks: without handlers and globals the context is returned unchanged (see DetInit)
+          ExtractFirst,\* seeded variant of runner.run: extractOption in front of the deferred start/end pairing (see Rejected)
           NoRebind     \* seeded variant of manager.withRunInfo: a manager without per-call handlers is returned unchanged (see ToolInit)
 
 \* ------------------------------------------------------------------ unit tables
 U(id, path, graph, parent, src, srcin, pred) ==
   [u |-> id, path |-> path, name |-> "N_" \o id, comp |-> IF graph THEN "Graph" ELSE "Lambda", typ |-> IF graph THEN "" ELSE "T_" \o id,
-   graph |-> graph, parent |-> parent, src |-> src, srcin |-> srcin, pred |-> pred]
+   graph |-> graph, parent |-> parent, src |-> src, srcin |-> srcin, pred |-> pred, host |-> "", fresh |-> FALSE]
 Top == U("top", <<>>, TRUE, "", "", TRUE, "")
 Leaf(id, key, pred) == U(id, <<key>>, FALSE, "top", IF pred = "" THEN "top" ELSE pred, pred = "", pred)
 UnitSeq ==
@@ -73,6 +75,12 @@ UnitSeq ==
                               U("s1", <<"sub", "s1">>, FALSE, "sub", "top", TRUE, "")>>
     \* runs that can end INSIDE the initial START step of runner.run: a branch on START with the targets {the leaf, END}
     \* ("sbr": in the top graph; "nsbr": in a nested graph that is the only node of the top graph); see `bsel` below
+    \* "det": the body of node a runs a component under a DETACHED callback scope: ctx2 = callbacks.InitCallbacks(ctx, info) with no
+    \* handlers, then callbacks.OnStart / OnEnd on ctx2.  That execution is a unit of its own ("da", hosted by a's body) to which only
+    \* global handlers apply (fresh = TRUE): per-call and designated handlers of the enclosing run must not see it, and it must not
+    \* be reported under a's run info.
+    [] Shape = "det"  -> <<Top, Leaf("a", "a", ""), Leaf("b", "b", ""),
+                           [U("da", <<"a", "#da">>, FALSE, "top", "", TRUE, "") EXCEPT !.comp = "Detached", !.host = "a", !.fresh = TRUE]>>
     [] Shape = "sbr"  -> <<Top, Leaf("a", "a", "")>>
     \* a ToolsNode executing two tool calls in parallel: each tool call is an execution unit of its own (component Tool, run info =
     \* the tool's name / type), whose context is made by callbacks.ReuseHandlers from the ToolsNode's context (compose/tool_node.go:221-243).
@@ -87,7 +95,9 @@ Ids == {u.u : u \in UnitSet}
 UR(id) == CHOOSE u \in UnitSet : u.u = id
 Leaves == {u.u : u \in {x \in UnitSet : ~x.graph}}
 Children(g) == {u.u : u \in {x \in UnitSet : x.parent = g}}
-Ends == LET last == {id \in Leaves : ~\E v \in UnitSet : v.pred = id} IN
+Hosted(id) == UR(id).host # ""
+HostedBy(h) == {u.u : u \in {x \in UnitSet : x.host = h}}
+Ends == LET last == {id \in Leaves : ~Hosted(id) /\ ~\E v \in UnitSet : v.pred = id} IN
         SelectSeq([i \in 1..Len(UnitSeq) |-> UnitSeq[i].u], LAMBDA id : id \in last)
 RECURSIVE InOf(_)
 InOf(id) == LET u == UR(id) IN IF u.src = "" THEN "x" ELSE IF u.srcin THEN InOf(u.src) ELSE u.src \o "(" \o InOf(u.src) \o ")"
@@ -98,7 +108,7 @@ RECURSIVE Sum(_)
 Sum(s) == IF s = <<>> THEN 0 ELSE Head(s) + Sum(Tail(s))
 Splits == {s \in UNION {[1..k -> 1..2] : k \in 0..MaxOpts} : Sum(s) <= MaxUndes}
 IsToolCall(id) == id \in {"t1", "t2"} /\ Shape = "tools"
-DPaths == {u.path : u \in {x \in UnitSet : x.parent # "" /\ ~IsToolCall(x.u)}}
+DPaths == {u.path : u \in {x \in UnitSet : x.parent # "" /\ ~IsToolCall(x.u) /\ x.host = ""}}
 POrd(p) == CHOOSE i \in 1..Len(UnitSeq) : UnitSeq[i].path = p
 \* one option may designate two paths, in EITHER order (extractOption walks opt.paths in order: a top-level path in front of a nested
 \* one and the reverse are different executions of that loop)
@@ -112,7 +122,16 @@ FailSet == {"none"} \cup (IF AllowFail THEN (IF Shape \in {"nest", "nestdup"} TH
 \* present): runner.run returns from inside the fresh-start block in the last three cases
 BranchGraph == IF Shape = "sbr" THEN "top" ELSE IF Shape = "nsbr" THEN "sub" ELSE "none"
 BSels == IF Shape = "sbr" THEN {"node", "end", "fail", "int"} ELSE IF Shape = "nsbr" THEN {"node", "end", "fail"} ELSE {"node"}
-Configs == {c \in [ng : 0..MaxGlobal, split : Splits, dopts : DSeqs, fail : FailSet, bsel : BSels] : c.fail # "none" => c.bsel = "node"}
+\* a call option the (sub) graph rejects when it extracts its options: an extra callbacks option "dx" designated to
+\*   t1 an unknown top-level node | t2 a path below a top-level leaf | s1 an unknown node inside the nested graph (passes the top-level
+\*   check, fails in the nested run) | s2 a path below a leaf of the nested graph.   The rejected run is an execution of that
+\*   graph unit: it must still report one start and one error.
+BadOpts == {"none"} \cup (IF Shape \in {"par2", "nest", "nestdup"} THEN {"t1", "t2"} ELSE {})
+                    \cup (IF Shape \in {"nest", "nestdup"} THEN {"s1", "s2"} ELSE {})
+BadPath(b) == CASE b = "t1" -> <<"zz">> [] b = "t2" -> <<UR("a").path[1], "x">> [] b = "s1" -> <<"sub", "zz">> [] b = "s2" -> <<"sub", "s1", "x">>
+RejectG(c) == IF c.badopt \in {"t1", "t2"} THEN "top" ELSE IF c.badopt \in {"s1", "s2"} THEN "sub" ELSE ""
+Configs == {c \in [ng : 0..MaxGlobal, split : Splits, dopts : DSeqs, fail : FailSet, bsel : BSels, badopt : BadOpts] :
+              c.fail # "none" => c.bsel = "node" /\ c.badopt = "none"}
 
 GId(i) == "G" \o ToString(i)
 UId(i) == "g" \o ToString(i)
@@ -130,9 +149,11 @@ CaseLine(c) ==
   [ev |-> "case", id |-> "m", shape |-> Shape,
    handlers |-> [i \in 1..c.ng |-> [id |-> GId(i), kind |-> "global", paths |-> <<>>]]
                 \o [i \in 1..Sum(c.split) |-> [id |-> UId(i), kind |-> "undes", paths |-> <<>>]]
-                \o [i \in 1..Len(c.dopts) |-> [id |-> DId(i), kind |-> "des", paths |-> c.dopts[i]]],
-   split |-> c.split, ng |-> c.ng, fail |-> c.fail, bsel |-> c.bsel,
-   units |-> UnitSeq, ends |-> IF c.bsel = "node" THEN Ends ELSE <<>>]
+                \o [i \in 1..Len(c.dopts) |-> [id |-> DId(i), kind |-> "des", paths |-> c.dopts[i]]]
+                \o (IF c.badopt = "none" THEN <<>> ELSE <<[id |-> "dx", kind |-> "des", paths |-> <<BadPath(c.badopt)>>]>>),
+   split |-> c.split, ng |-> c.ng, fail |-> c.fail, bsel |-> c.bsel, badopt |-> c.badopt,
+   reject |-> IF RejectG(c) = "sub" THEN "sub" ELSE "", rejecttop |-> RejectG(c) = "top",
+   units |-> UnitSeq, ends |-> IF c.bsel = "node" /\ RejectG(c) = "" THEN Ends ELSE <<>>]
 
 \* ------------------------------------------------------------------ state
 VARIABLES cfg, heap, na, mgr, lst, pc, S, sched
@@ -166,8 +187,9 @@ AppendHandlers(parent, chunks) ==
      ELSE LET r == IF CopyFix THEN CopyAppend(c1.h, parent.hs, add, c1.na) ELSE GoAppend(c1.h, parent.hs, add, c1.na, 16)
           IN [h |-> r.h, na |-> r.na, m |-> InitCallbacks(r.s)]
 
-Early(g) == g = BranchGraph /\ cfg.bsel # "node"                 \* the run of graph g returns from inside its START step
-EarlyErr == BranchGraph # "none" /\ cfg.bsel \in {"fail", "int"}
+Rejected(g) == g # "" /\ RejectG(cfg) = g                           \* extractOption fails for the run of graph g: no node of g starts
+Early(g) == (g = BranchGraph /\ cfg.bsel # "node") \/ Rejected(g)   \* the run of g returns before its main loop
+EarlyErr == (BranchGraph # "none" /\ cfg.bsel \in {"fail", "int"}) \/ RejectG(cfg) # ""
 Failing(id) == IF UR(id).graph THEN (id = "top" /\ (cfg.fail # "none" \/ EarlyErr)) \/ cfg.fail \in Children(id) \/ (Early(id) /\ EarlyErr)
                ELSE cfg.fail = id
 EndTiming(id) == IF Failing(id) THEN "error" ELSE "end"
@@ -178,16 +200,18 @@ Rev(s) == [i \in 1..Len(s) |-> s[Len(s) + 1 - i]]
 
 \* ------------------------------------------------------------------ steps
 Blocked(id) == UR(id).pred # "" /\ cfg.fail = UR(id).pred
-CanInit(id) == /\ id # "top" /\ pc[id] = "wait" /\ pc[UR(id).parent] = "run" /\ ~Early(UR(id).parent)
-               /\ (UR(id).pred # "" => pc[UR(id).pred] = "done" /\ ~Blocked(id))
+CanInit(id) == IF Hosted(id) THEN pc[id] = "wait" /\ pc[UR(id).host] = "run"
+               ELSE /\ id # "top" /\ pc[id] = "wait" /\ pc[UR(id).parent] = "run" /\ ~Early(UR(id).parent)
+                    /\ (UR(id).pred # "" => pc[UR(id).pred] = "done" /\ ~Blocked(id))
 ChildrenDone(g) == Early(g) \/ \A k \in Children(g) : pc[k] = "done" \/ Blocked(k)
-CanEndW(id) == pc[id] = "run" /\ (UR(id).graph => ChildrenDone(id))
+CanEndW(id) == pc[id] = "run" /\ (UR(id).graph => ChildrenDone(id)) /\ \A h \in HostedBy(id) : pc[h] = "done"
 Ungated == \E id \in Ids : \/ CanInit(id)
                             \/ pc[id] = "startW"
                             \/ (UR(id).graph /\ CanEndW(id))
                             \/ (id = "top" /\ pc[id] \in {"ginit", "startR", "endR", "done"})
+                            \/ (Hosted(id) /\ (pc[id] \in {"startR", "endR"} \/ CanEndW(id)))   \* runs inside a body: not gateable on its own
 MayGate == Gen => ~Ungated
-Rec(id, step) == sched' = IF Gen /\ id # "top" THEN Append(sched, <<id, step>>) ELSE sched
+Rec(id, step) == sched' = IF Gen /\ id # "top" /\ ~Hosted(id) THEN Append(sched, <<id, step>>) ELSE sched
 
 GInit ==
   /\ pc["top"] = "ginit"
@@ -197,11 +221,21 @@ GInit ==
   /\ UNCHANGED <<cfg, lst, S, sched>>
 
 NodeInit(id) ==
-  /\ CanInit(id) /\ ~IsToolCall(id)
+  /\ CanInit(id) /\ ~IsToolCall(id) /\ ~Hosted(id)
   /\ LET r == AppendHandlers(mgr[UR(id).parent], DChunks(cfg, id)) IN
        /\ heap' = r.h /\ na' = r.na /\ mgr' = [mgr EXCEPT ![id] = [r.m EXCEPT !.ri = id]]
   /\ pc' = [pc EXCEPT ![id] = "startW"]
   /\ UNCHANGED <<cfg, lst, S, sched>>
+
+\* a detached scope opened by user code inside a node body: callbacks.InitCallbacks(ctx, info) with NO handlers = newManager(info):
+\* no per-call handlers; the global ones if there are any, else ctxWithManager(ctx, nil): nothing fires.
+\* KeepScope (seeded variant): `if !ok { return ctx }` -- without global handlers the host's manager (handlers AND run info) stays.
+DetInit(id) ==
+  /\ CanInit(id) /\ Hosted(id)
+  /\ mgr' = [mgr EXCEPT ![id] = IF cfg.ng > 0 THEN [on |-> TRUE, hs |-> NilSlice, gl |-> Globals(cfg), ri |-> id]
+                                 ELSE IF KeepScope THEN mgr[UR(id).host] ELSE NoMgr]
+  /\ pc' = [pc EXCEPT ![id] = "startW"]
+  /\ UNCHANGED <<cfg, heap, na, lst, S, sched>>
 
 \* a tool call: ctx = callbacks.ReuseHandlers(ctx, &RunInfo{tool name, type, Tool}) = the ToolsNode's manager .withRunInfo(info):
 \* same handler slice header, same global list, new run info; no manager -> none.
@@ -228,36 +262,39 @@ Dispatch(id, t) == IF ~mgr[id].on THEN <<>>
                    ELSE LET hs == IF t = "start" THEN Rev(Scan(id)) ELSE Scan(id) IN [i \in 1..Len(hs) |-> Ev(hs[i], t, id)]
 
 StartW(id) == OnW(id, "startW", "startR") /\ UNCHANGED <<cfg, mgr, S, sched>>
+\* ExtractFirst (seeded variant): extractOption runs before the deferred pairing exists, a rejected run reports nothing at all
+Silent(id) == ExtractFirst /\ Rejected(id)
 StartR(id) ==
-  /\ pc[id] = "startR" /\ (id # "top" => MayGate)
-  /\ S' = ApplyAll(S, Dispatch(id, "start") \o (IF UR(id).graph /\ id # "top" /\ id # BranchGraph THEN <<>> ELSE <<[ev |-> "enter", u |-> id, in |-> InOf(id)]>>)
+  /\ pc[id] = "startR" /\ (id # "top" /\ ~Hosted(id) => MayGate)
+  /\ S' = ApplyAll(S, (IF Silent(id) THEN <<>> ELSE Dispatch(id, "start")) \o (IF UR(id).graph /\ id # "top" /\ id # BranchGraph THEN <<>> ELSE <<[ev |-> "enter", u |-> id, in |-> InOf(id)]>>)
                       \o (IF id = BranchGraph /\ id # "top" /\ cfg.bsel = "fail" THEN <<[ev |-> "exit", u |-> id, out |-> "", fail |-> TRUE]>> ELSE <<>>))
   /\ pc' = [pc EXCEPT ![id] = "run"]
   /\ Rec(id, "startR")
   /\ UNCHANGED <<cfg, heap, na, mgr, lst>>
 EndW(id) ==
-  /\ CanEndW(id) /\ (~UR(id).graph => MayGate)
+  /\ CanEndW(id) /\ (~UR(id).graph /\ ~Hosted(id) => MayGate)
   /\ OnW(id, "run", "endR")
   /\ S' = IF UR(id).graph THEN S ELSE Apply(S, [ev |-> "exit", u |-> id, out |-> OutOf(id), fail |-> Failing(id)])
-  /\ sched' = IF Gen /\ ~UR(id).graph THEN Append(sched, <<id, "endW">>) ELSE sched
+  /\ sched' = IF Gen /\ ~UR(id).graph /\ ~Hosted(id) THEN Append(sched, <<id, "endW">>) ELSE sched
   /\ UNCHANGED <<cfg, mgr>>
 EndR(id) ==
-  /\ pc[id] = "endR" /\ (id # "top" => MayGate)
+  /\ pc[id] = "endR" /\ (id # "top" /\ ~Hosted(id) => MayGate)
   \* runner.run's deferred block:  if !haveOnStart { onGraphStart }; then onGraphError / onGraphEnd.  As coded the flag is set
   \* right after the first onGraphStart, so the compensation never fires for a run that started.  LateFlag: the flag is set only
   \* behind the fresh-start block, whose three early returns (result at once, interrupt-before hit, failing branch) skip it.
-  /\ S' = ApplyAll(S, (IF LateFlag /\ Early(id) THEN Dispatch(id, "start") ELSE <<>>) \o Dispatch(id, EndTiming(id)))
+  /\ S' = ApplyAll(S, IF Silent(id) THEN <<>>
+                       ELSE (IF LateFlag /\ Early(id) THEN Dispatch(id, "start") ELSE <<>>) \o Dispatch(id, EndTiming(id)))
   /\ pc' = [pc EXCEPT ![id] = "done"]
   /\ Rec(id, "endR")
   /\ UNCHANGED <<cfg, heap, na, mgr, lst>>
 Finish ==
   /\ pc["top"] = "done"
-  /\ S' = ApplyAll(S, << [ev |-> "ret", err |-> Failing("top"), out |-> OutOf("top"), outs |-> IF cfg.bsel = "node" THEN [i \in {Ends[k] : k \in 1..Len(Ends)} |-> OutOf(i)] ELSE <<>>],
+  /\ S' = ApplyAll(S, << [ev |-> "ret", err |-> Failing("top"), out |-> OutOf("top"), outs |-> IF cfg.bsel = "node" /\ RejectG(cfg) = "" THEN [i \in {Ends[k] : k \in 1..Len(Ends)} |-> OutOf(i)] ELSE <<>>],
                          [ev |-> "done"] >>)
   /\ pc' = [pc EXCEPT !["top"] = "fin"]
   /\ UNCHANGED <<cfg, heap, na, mgr, lst, sched>>
 
-Next == GInit \/ Finish \/ \E id \in Ids : NodeInit(id) \/ ToolInit(id) \/ StartW(id) \/ StartR(id) \/ EndW(id) \/ EndR(id)
+Next == GInit \/ Finish \/ \E id \in Ids : NodeInit(id) \/ ToolInit(id) \/ DetInit(id) \/ StartW(id) \/ StartR(id) \/ EndW(id) \/ EndR(id)
 Spec == Init /\ [][Next]_vars
 
 \* ------------------------------------------------------------------ what TLC checks
